@@ -235,7 +235,7 @@ def main(tier, seed):
     mod = sys.modules[__name__]
     code, ev = E.run_property(mod, tier, seed)
     rng = random.Random(seed * 7919 + 8)
-    wdir = os.path.join(B.WORK, ID)
+    wdir = B.workdir(ID)
     tools = []
     for feats, tag in ((("full", "packed"), "packed"), (("full",), "derived")):
         try:
